@@ -6,7 +6,7 @@ Not decided: wrapping at 60, presence of every sequence in every block, exact by
 numerical correctness of the GCG checksum arithmetic.
 """
 from ..build import AnalysisBroken
-from ..util import (site, guards, printf_specs, reaching_sources, macro_of_const, const_value)
+from ..util import (local_defs, site, guards, printf_specs, reaching_sources, macro_of_const, const_value)
 from .c01 import _seq_origin
 
 
@@ -242,14 +242,97 @@ def r15(ck, prog):
                 break
 
 
+def r15h(ck, prog):
+    """a header line that did not fit is written again into the enlarged buffer: inside `if (written >= size)` the retried
+    snprintf is given a size that is provably larger than `written` (the buffer was just re-allocated to written + 1);
+    retrying with the old size cuts the line at the same place again"""
+    from ..affine import lin
+    n = 0
+    for name in ("write_msa_msf", "write_msa_clu"):
+        F = prog.fn(name)
+        for ifs in F.body.find("IfStmt"):
+            c = ifs.child("cond").strip(casts=True)
+            if not (c.k == "BinaryOperator" and c.d["op"] in (">=", ">")):
+                continue
+            w, sz = c.kids[0].strip(casts=True), c.kids[1].strip(casts=True)
+            if w.k != "DeclRefExpr" or w.ty != "int":
+                continue
+            firsts = [d for d, _ in local_defs(F, w.d["did"]) if d is not None and d.strip(casts=True).k == "CallExpr"
+                      and d.strip(casts=True).callee == "snprintf"]
+            if not firsts:
+                continue
+            retries = [x for x in ifs.child("then").find("CallExpr") if x.callee == "snprintf"]
+            if not retries:
+                continue
+            for r in retries:
+                n += 1
+                where = site(prog, r, "retry")
+                d = lin(r.args[1])
+                lw = lin(w)
+                ck.inst("R15h", where, "%s: after `%s` the line is written again with size %s" % (name, c.text(), r.args[1].text()), prog.config)
+                if d is None or lw is None:
+                    raise AnalysisBroken("R15h: size of the retried snprintf at %s is not affine" % r.loc)
+                rest = d.add(lw, -1)
+                if rest.is_const() and rest.c >= 1:
+                    continue
+                if r.args[1].strip(casts=True).text() == sz.text() or (rest.is_const() and rest.c < 1):
+                    ck.violation("R15h", "R15h/%s/retry-size" % name, where,
+                                 "%s retries the line that did not fit (%s) with size %s: the copy is cut at the same place again, the header "
+                                 "loses its tail (check value, type, '..')" % (name, c.text(), r.args[1].text()), prog.config)
+                else:
+                    raise AnalysisBroken("R15h: size %s of the retried snprintf at %s is not comparable with %s" % (r.args[1].text(), r.loc, w.text()))
+    ck.floor("R15h", n, 2, "retried header lines")
+
+
+def r15i(ck, prog):
+    """a sequence name printed into the name column of a block format cannot run into the residues: every %s conversion
+    of msa_seq.name in write_msa_msf / write_msa_clu that has a field width also has a precision"""
+    import re
+    n = 0
+    for name in ("write_msa_msf", "write_msa_clu"):
+        F = prog.fn(name)
+        for c in F.body.calls("snprintf", "fprintf", "sprintf"):
+            fi = next((i for i, a in enumerate(c.args) if a.strip(casts=True).k == "StringLiteral" and "%" in a.strip(casts=True).d.get("s", "")), None)
+            if fi is None:
+                continue
+            fmt = c.args[fi].strip(casts=True).d["s"]
+            argi = 0
+            for m in re.finditer(r"%([-+ #0]*)(\*|\d+)?(?:\.(\*|\d+))?(hh|h|ll|l|L|z|j|t)?([diouxXeEfFgGaAcspn%])", fmt):
+                if m.group(5) == "%":
+                    continue
+                if m.group(2) == "*":
+                    argi += 1
+                if m.group(3) == "*":
+                    argi += 1
+                val = c.args[fi + 1 + argi] if fi + 1 + argi < len(c.args) else None
+                argi += 1
+                if m.group(5) != "s" or val is None:
+                    continue
+                if not any(x.k == "MemberExpr" and x.d.get("field") == "name" and x.d.get("rec") == "msa_seq" for x in val.walk()):
+                    continue
+                n += 1
+                where = site(prog, c, "name")
+                ck.inst("R15i", where, "%s prints a sequence name with '%s'" % (name, m.group(0)), prog.config)
+                if m.group(2) is not None and m.group(3) is None:
+                    ck.violation("R15i", "R15i/%s/name-precision" % name, where,
+                                 "%s prints the name with '%s': a width pads short names but does not cut long ones, so a name longer than "
+                                 "the column runs into the residues and the row no longer has a name field and at most 60 columns" % (name, m.group(0)),
+                                 prog.config)
+    ck.floor("R15i", n, 2, "name conversions in the block writers")
+
+
 def run(ck, progs):
     describe(ck)
+    ck.rule("R15h", "a header line that did not fit is written again with a size larger than what the first attempt needed")
+    ck.rule("R15i", "every %s conversion of a sequence name in the MSF/Clustal writers that has a width also has a precision")
     for cfg, prog in progs.items():
         ck.attempt(r15, ck, prog)
         ck.attempt(r15d, ck, prog)
         ck.attempt(r15e, ck, prog)
         ck.attempt(r15f, ck, prog)
         ck.attempt(r15g, ck, prog)
+        ck.attempt(r15h, ck, prog)
+        ck.attempt(r15i, ck, prog)
     return ("Reaching-definition agreement inside write_msa_msf between the header's declared length, the checksum spans "
             "and the bound that terminates row emission; pairing of Name: and Check: on the same sequence index; the "
             "predicate that selects banner and Type:.")
